@@ -46,11 +46,24 @@ theorem goInt_nonneg (l : Nat) (h : l < 2 ^ 63) : ¬ goInt l < 0 := by
 theorem take_append_len (b rest : Bytes) : (b ++ rest).take b.length = b := by simp
 theorem drop_append_len (b rest : Bytes) : (b ++ rest).drop b.length = rest := by simp
 
+theorem beDecMod_eq (w : Nat) (b : Bytes) :
+    ∀ acc, acc < 256 ^ w → beDecMod w acc b = (acc * 256 ^ b.length + beDec b) % 256 ^ w := by
+  induction b with
+  | nil => intro acc h; simp [beDecMod, beDec, Nat.mod_eq_of_lt h]
+  | cons x t ih =>
+    intro acc _
+    simp only [beDecMod, beDec, List.length_cons]
+    rw [ih _ (Nat.mod_lt _ (Nat.pow_pos (by omega)))]
+    have e : acc * 256 ^ (t.length + 1) + (x * 256 ^ t.length + beDec t)
+        = (acc * 256 + x) * 256 ^ t.length + beDec t := by
+      rw [Nat.pow_succ, Nat.add_mul, Nat.mul_assoc, Nat.mul_comm (256 ^ t.length) 256]; omega
+    rw [e, Nat.add_mod, Nat.mul_mod, Nat.mod_mod, ← Nat.mul_mod, ← Nat.add_mod]
+
 theorem readUintLoop_spec (w : Nat) (b rest : Bytes) (hl : b.length < 2 ^ 63) :
     readUintLoop w b.length (b ++ rest) = .ok (.nat (beDec b % 256 ^ w), rest) 0 := by
   unfold readUintLoop
   rw [if_neg (goInt_nonneg _ hl), if_neg (by simp)]
-  simp
+  simp [beDecMod_eq w _ 0 (Nat.pow_pos (by omega))]
 
 theorem encNat_dec (n : Nat) (h : n < 2 ^ 64) : beDec (encNat n) = n := by
   have := decNat_encNat n h
